@@ -620,7 +620,7 @@ func (w *Walker) assignExprs(lhs, rhs []ast.Expr, tok token.Token, node ast.Node
 				w.unsupported(c.fn, "2-value assignment", node.Pos())
 				v, ok = "?", "?"
 			}
-			st = w.write(lhs[0], v, nil, op, node, st, c)
+			st = w.writeRHS(lhs[0], v, nil, r, op, node, st, c)
 			st = w.write(lhs[1], ok, nil, op, node, st, c)
 			k(st)
 			return
